@@ -167,6 +167,8 @@ bool splinetable<Alloc>::read_fits_mem(void* buffer, size_t buffer_size){
 template<typename Alloc>
 bool splinetable<Alloc>::read_fits_core(fitsfile* fits, const std::string& filePath){
 	int error = 0;
+	//an empty table may already hold auxiliary keys; they are replaced by those of the file
+	reset();
 	//if (error != 0)
 	//	throw std::runtime_error("Failed to move to HDU 1 in "+filePath);
 	
